@@ -91,6 +91,11 @@ class Session:
         self.ops.append(op)
         return step
 
+    def query_here(self):
+        """A corpus script asks for the query battery at this point (the runner installs the hook)."""
+        if getattr(self, "on_query", None):
+            self.on_query()
+
     def queries(self, addrs=None, pages=(1, 2, 12, 13, 14, 255), colls=None, batches=()):
         addrs = addrs if addrs is not None else [a for a in self.cfg["users"][:6]]
         colls = colls if colls is not None else self.by_kind("cw721")
